@@ -1,10 +1,12 @@
 pub mod c01;
 pub mod c02;
 pub mod c03;
+pub mod c04;
 pub mod c05;
 pub mod c06;
 pub mod c07;
 pub mod c08;
+pub mod c09;
 pub mod c10;
 pub mod c11;
 pub mod c12;
@@ -21,7 +23,7 @@ pub struct CheckDef {
 }
 
 pub fn all() -> Vec<CheckDef> {
-    vec![c01::def(), c02::def(), c03::def(), c05::def(), c06::def(), c07::def(), c08::def(), c10::def(), c11::def(), c12::def(), c15::def(), c16::def()]
+    vec![c01::def(), c02::def(), c03::def(), c04::def(), c05::def(), c06::def(), c07::def(), c08::def(), c09::def(), c10::def(), c11::def(), c12::def(), c15::def(), c16::def()]
 }
 
 pub fn find(id: &str) -> Option<CheckDef> {
@@ -34,6 +36,8 @@ pub fn replay_other(kind: &str, fr: &crate::runner::FailRec, dir: &std::path::Pa
         "c08" => c08::replay(fr, dir),
         "c02" => c02::replay(fr, dir),
         "c03" => c03::replay(fr, dir),
+        "c04" => c04::replay(fr, dir),
+        "c09" => c09::replay(fr, dir),
         "c10" => c10::replay(fr, dir),
         "c11" => c11::replay(fr, dir),
         "c12" => c12::replay(fr, dir),
